@@ -4,7 +4,8 @@ from .common import generic_replay
 
 
 def run(tier):
-    return relcheck.rel_check("C10", ("SIM.",), ["Noh", "Cog19", "RiemannIG", "Mader", "Sedov", "EHEP", "Guderley"], ["Similar"], tier)
+    return relcheck.rel_check("C10", ("SIM.",), ["Noh", "Cog19", "RiemannIG", "Mader", "Sedov", "EHEP", "Guderley"], ["Similar"], tier,
+                              sample={"RiemannIG": (None, 30000)})      # thorough: 30 000 of the 218 000 closed-form Riemann pairs
 
 
 def replay(path):
